@@ -53,8 +53,17 @@ Definition run_case (c : sexp) : sexp :=
       else ssym "none" in
     SList [SBytes out; sbool ok; seen]
   else if head_is c "shake-client" then
+    (* request bytes, accepted?, adopted msize, and the frame length of a 100000-byte write sent afterwards
+       (-1: nothing is sent) *)
     let '(out, ok, m) := client_handshake (get_N (arg c 0)) (get_bytes (arg c 1)) in
-    SList [SBytes out; sbool ok; snat m]
+    let big := {| fc_type := T_Twrite; fc_tag := 1;
+                  fc_fields := [VF (FInt 4 7); VF (FInt 8 0); VF (FData (repeat 0 (N.to_nat 100000)))] |} in
+    let wl := if ok then match write_fcall m true big with
+                         | (o, WSent) => SNum (Z.of_N (len o))
+                         | _ => SNum (-1)
+                         end
+              else SNum (-1) in
+    SList [SBytes out; sbool ok; snat m; wl]
   else SList [ssym "unknown-case"].
 
 Definition run_line (line : list N) : list N := print_sexp (run_case (parse_sexp line)).
